@@ -22,7 +22,7 @@
 EXTENDS Wire, TLC, Json, IOUtils
 
 Rec == ndJsonDeserialize(IOEnv.TRACE)
-MaxBad == 2000
+MaxBad == 25        \* mismatch records kept per kind of deviation and shard; every mismatch is counted in cnt["bad:<kind>"]
 ParseLimit == 64          \* longer field / value lists are compared with the reference encoding only
 
 VARIABLES l, buf, obuf, bad, cnt
@@ -31,7 +31,7 @@ vars == <<l, buf, obuf, bad, cnt>>
 Inc(c, k) == IF k \in DOMAIN c THEN [c EXCEPT ![k] = @ + 1] ELSE c @@ (k :> 1)
 BadRec(e, what, exp, want) == [sc |-> e.sc, i |-> e.i, a |-> e.a.a, what |-> what, exp |-> exp, obs |-> e.out, dev |-> "",
                                cfg |-> e.cfg, want |-> want]
-AddBad(b, r) == IF Len(b) < MaxBad THEN Append(b, r) ELSE b
+AddBad(b, r) == IF Cardinality({ i \in 1..Len(b) : b[i].what = r.what /\ b[i].obs = r.obs }) < MaxBad THEN Append(b, r) ELSE b
 
 Init == l = 1 /\ buf = <<>> /\ obuf = <<>> /\ bad = <<>> /\ cnt = [ok |-> 0, queries |-> 0]
 
@@ -40,7 +40,7 @@ StepFeed(e) ==
    LET good == e.out = "ok" /\ e.rem = buf \o e.a.b IN
    /\ buf' = e.rem /\ obuf' = obuf
    /\ bad' = IF good THEN bad ELSE AddBad(bad, BadRec(e, "feed", "ok", <<>>))
-   /\ cnt' = IF good THEN Inc(cnt, "ok") ELSE cnt
+   /\ cnt' = IF good THEN Inc(cnt, "ok") ELSE Inc(cnt, "bad:feed")
 StepDec(e) ==
    LET r == IF e.a.su = 1 THEN DecodeStartup(buf) ELSE Decode(buf)
        w == Judge(r, buf, e)
@@ -48,7 +48,7 @@ StepDec(e) ==
    /\ buf' = e.rem /\ obuf' = obuf
    /\ bad' = IF w = "" THEN bad
              ELSE AddBad(bad, BadRec(e, w, KindsStr(r.kinds), [end |-> r.end, consumed |-> Len(buf) - Len(e.rem), m |-> r.m]))
-   /\ cnt' = IF w = "" THEN Inc(c1, "ok") ELSE c1
+   /\ cnt' = IF w = "" THEN Inc(c1, "ok") ELSE Inc(c1, "bad:" \o w)
 StepEnc(e) ==
    LET m == e.a.m
        preOk == Len(e.buf) >= Len(obuf) /\ Sub(e.buf, 1, Len(obuf)) = obuf
@@ -66,7 +66,7 @@ StepEnc(e) ==
    /\ buf' = buf /\ obuf' = e.buf
    /\ IF ~Representable(m) THEN bad' = bad /\ cnt' = Inc(cnt, "unmodelled")
       ELSE /\ bad' = IF w = "" THEN bad ELSE AddBad(bad, BadRec(e, w, "frame", [len |-> Len(d), ref |-> IF big THEN <<>> ELSE Encode(m)]))
-           /\ cnt' = IF w = "" THEN Inc(c1, "ok") ELSE c1
+           /\ cnt' = IF w = "" THEN Inc(c1, "ok") ELSE Inc(c1, "bad:" \o w)
 Step(e) == CASE e.a.a = "reset" -> StepReset(e)
              [] e.a.a = "feed"  -> StepFeed(e)
              [] e.a.a = "dec"   -> StepDec(e)
